@@ -8,7 +8,8 @@ operation the model answers *which fresh computation its output must equal* (its
 run from scratch in fresh subprocesses (harness/lib_c15_worker.py) and compared with what the history produced.
 Property oracle: the same comparison with the declared inputs taken from the property's wording (the elemental
 reference of an estimate is that of the molecule its descriptors were obtained for), plus a digest of every live
-library's data before and after every operation (nothing but a merge may change one, and only its destination).
+library's data before and after every operation (nothing but a merge may change one, and only its destination), and
+per-group digests before and after every REFUSED merge (it must change nothing: GroupLibrary.Update is all-or-nothing).
 """
 import os, sys, json, io, contextlib, subprocess, collections, hashlib
 from . import common
@@ -21,7 +22,7 @@ OBLIGATIONS = ['PGA.History.' + t for t in [
     'C15_frame_library', 'C15_data_changes_only_by_merge', 'C15_frame_estimate', 'C15_frame_registries',
     'C15_name_is_last_decomposed', 'C15_elemental_uses_last_decomposed', 'C15_F26_witness', 'C15_full_false',
     'C15_elemental_partial', 'C15_F1_estimate_before_decompose', 'C15_f1Safe_of_fixed',
-    'C15_rejected_merge_frame', 'C15_rejected_merge_full_false']]
+    'C15_rejected_merge_full', 'C15_rejected_merge_frame', 'C15_refused_merge_invisible', 'C15_rejected_merge_old_fails']]
 RULE = ('case = one operation of a random history (length 2..40) over 2-4 shipped libraries (loaded by name or by path, some '
         'twice), 3-6 molecules per library (decomposable, not decomposable, unparsable), descriptor mappings taken from earlier '
         'decompositions (also of other libraries), temperatures {298.15, 500, 900}, 11 quantities (4 with the elemental '
@@ -246,13 +247,14 @@ def scripted_histories(U):
         ops += [{'k': 'evaluate', 'est': 1, 'T': t, 'q': q, 'el': None} for t in range(len(TEMPS)) for q in range(len(PLAIN))]
         ops += [{'k': 'evaluate', 'est': 0, 'T': t, 'q': q, 'el': None} for t in range(len(TEMPS)) for q in range(len(PLAIN))]
         out.append(ops)
-    # two merges into one target, the second with overwrite: a library that only ever was a SOURCE must keep its data
+    # two merges into one target, both with overwrite (without it nearly every merge between shipped libraries is refused, and a
+    # refused merge takes nothing over since the repair of FA1): a library that only ever was a SOURCE must keep its data
     ev = lambda e: [{'k': 'evaluate', 'est': e, 'T': t, 'q': q, 'el': None} for t in range(len(TEMPS)) for q in (0, 1, 3)]
     ops = [{'k': 'load', 'L': U.lib_ids['XieGA2022'], 'byPath': False}, {'k': 'load', 'L': U.lib_ids['SalciccioliGA2012'], 'byPath': False},
            {'k': 'load', 'L': U.lib_ids['GRWSurface2018'], 'byPath': False},
            {'k': 'decompose', 'lib': 1, 'm': U.mol('CC[Pt]')}, {'k': 'estimate', 'lib': 1, 'from': 3, 'forMol': U.mol('CC[Pt]')}]
     ops += ev(0)
-    ops += [{'k': 'merge', 'dst': 0, 'src': 1, 'ow': False}, {'k': 'merge', 'dst': 0, 'src': 2, 'ow': True},
+    ops += [{'k': 'merge', 'dst': 0, 'src': 1, 'ow': True}, {'k': 'merge', 'dst': 0, 'src': 2, 'ow': True},
             {'k': 'decompose', 'lib': 1, 'm': U.mol('CC[Pt]')}, {'k': 'estimate', 'lib': 1, 'from': len(ops) + 2, 'forMol': U.mol('CC[Pt]')}]
     ops += ev(1) + ev(0)
     out.append(ops)
@@ -403,9 +405,11 @@ class ImplRun(object):
 
 def rejected_merge(ctx, U, conc, dst, err, held, holds, offered):
     """A merge that was refused must leave the destination as it was: a library that merely attempted a merge is a library
-    that did nothing (otherwise every later result depends on that attempt).  The code is known not to be failure-atomic for
-    GROUP data (finding FA1: the groups of the source that precede the conflict stay merged); the classifier assigns FA1 only
-    when the uncertainty block is as before, no group is gone and every new or changed group is one the source offers."""
+    that did nothing (otherwise every later result depends on that attempt).  `GroupLibrary.Update` is all-or-nothing since the
+    repair of finding FA1 (before it, the groups of the source that preceded the conflict stayed merged): ANY difference —
+    a group added, changed or gone, the uncertainty block — is a violation.  A difference of exactly the old class (uncertainty
+    block as before, no group gone, every new or changed group one the source offers) is labelled FA1 (a `fixed` finding
+    matches nothing: the label only says which repair regressed)."""
     ctx.count('rejected_merges')
     if held == holds:
         ctx.count('rejected_merges_that_left_nothing')
@@ -415,15 +419,15 @@ def rejected_merge(ctx, U, conc, dst, err, held, holds, offered):
     changed = sorted(g for g in holds['groups'] if g in held['groups'] and held['groups'][g] != holds['groups'][g])
     uq = 'as before' if held['uq'] == holds['uq'] else ('adopted from the source' if held['uq'] is None else 'changed')
     foreign = [g for g in new + changed if g not in offered]
-    known = uq == 'as before' and not gone and not foreign
+    fa1 = uq == 'as before' and not gone and not foreign
     observed = {'raised': err, 'groups_added': len(new), 'groups_changed': len(changed), 'groups_removed': len(gone),
                 'uncertainty_data': uq, 'examples': (new + changed + gone)[:4]}
-    ctx.count('rejected_merges_FA1' if known else 'rejected_merges_unexplained')
-    what = ('a rejected merge left group data of the source in the destination library' if known else
+    ctx.count('rejected_merges_that_changed_the_destination')
+    what = ('a rejected merge left group data of the source in the destination library' if fa1 else
             'a rejected merge changed the destination library beyond taking over group data of the source: uncertainty data %s'
             '%s%s' % (uq, ', groups removed' if gone else '', ', groups changed that the source does not hold' if foreign else ''))
     ctx.violation(what, replay_input(U, conc, extra={'library': dst}), expected='the destination holds what it held before the merge was refused',
-                  observed=observed, finding='FA1' if known else None)
+                  observed=observed, finding='FA1' if fa1 else None)
 
 
 def replay_input(U, conc, extra=None):
@@ -444,24 +448,38 @@ def floats_close(a, b):
 
 def check_histories(ctx, histories, fresh, f1_fixed, U):
     """histories: list of (concrete ops, impl outs). Runs the model, fetches the fresh baselines, compares."""
-    # ---- round(s) with the driver: Estimate outcomes per (data, mapping) are control-relevant and come from fresh runs
+    # ---- round(s) with the driver.  Control-relevant facts the symbolic model cannot know are tables: Estimate outcomes per
+    # (data, mapping) come from fresh runs; whether a merge is refused per (destination data, source data, overwrite) is taken
+    # from what the history observed at the operation the driver names — and verified below against the fresh-process run of
+    # exactly that merge (`compare`: error class, digest, and "refused" as the model has it).  The driver reports the first
+    # merge of unknown outcome of a history only (what follows it may name wrong provenances), so this takes as many (cheap,
+    # driver-only) rounds as the longest chain of merges.
     est_table = {}
+    merge_table = {}
     load_err = [[U.lib_ids[BOGUS_LIB], 1]]
-    for _ in range(6):
+    for _ in range(80):
         reqs = []
         for conc, _o in histories:
             ops = [c for c in conc if c is not None]
             reqs.append({'op': 'c15.run', 'f1Fixed': f1_fixed, 'loadErr': load_err,
-                         'est': [[k[0], k[1], v] for k, v in est_table.items()], 'ops': ops})
+                         'est': [[k[0], k[1], v] for k, v in est_table.items()],
+                         'mergeErr': [[k[0], k[1], k[2], v] for k, v in merge_table.items()], 'ops': ops})
         replies = ctx.model(reqs)
         if replies is None:
             return
         unknown = {}
-        for rep in replies:
+        learned = False
+        for (conc, outs), rep in zip(histories, replies):
+            live = [o for c, o in zip(conc, outs) if c is not None]
+            for ka, kb, ow, i in rep['unknownMerge']:
+                if (ka, kb, ow) not in merge_table:
+                    merge_table[(ka, kb, ow)] = 3 if live[i]['merge_err'] else -1
+                    learned = True
             for P, d, key in rep['unknownEst']:
                 unknown[(key, d)] = P
-        if not unknown:
+        if not unknown and not learned:
             break
+        ctx.count('driver_rounds')
         for (key, d), P in unknown.items():
             fresh.want({'kind': 'est', 'prov': U.prov(P), 'd': U.descrs[d], 'name': DUMMY})
         fresh.flush()
@@ -470,7 +488,7 @@ def check_histories(ctx, histories, fresh, f1_fixed, U):
             est_table[(key, d)] = -1 if 'ok' in r else 2
             est_err[(key, d)] = r.get('err')
     else:
-        raise common.MachineryError('Estimate outcome table did not converge')
+        raise common.MachineryError('Estimate / merge outcome tables did not converge')
     # ---- what must each output equal? collect the fresh requests
     plan = []
     for (conc, outs), rep in zip(histories, replies):
@@ -495,7 +513,7 @@ def check_histories(ctx, histories, fresh, f1_fixed, U):
         if 'badRef' in m:
             raise common.MachineryError('generated history has a dangling reference: %r' % c)
         compare(ctx, U, fresh, conc, idx, c, o, m, f1_fixed)
-        if len(ctx.disagreements) > n0 and c['k'] in ('load', 'estimate'):
+        if len(ctx.disagreements) > n0 and c['k'] in ('load', 'estimate', 'merge'):
             diverged.add(id(conc))
 
 
@@ -550,8 +568,10 @@ def baseline_requests(U, c, m, conc, idx):
             reqs.append(eval_req(U, v, U.mols[c['_forMol']], c))
         return reqs
     if k == 'merge' and 'merged' in m:
-        P = m['merged']
-        return [{'kind': 'merge', 'dst': U.prov(P[1]), 'src': U.prov(P[2]), 'ow': bool(P[3])}]
+        reqs = [{'kind': 'merge', 'dst': U.prov(m['dst']), 'src': U.prov(m['src']), 'ow': bool(m['ow'])}]
+        if m['refused']:
+            reqs.append({'kind': 'data', 'prov': U.prov(m['merged'])})
+        return reqs
     return []
 
 
@@ -650,13 +670,24 @@ def compare(ctx, U, fresh, conc, idx, c, o, m, f1_fixed):
                           hist, expected=model_val, observed=o['val'])
         return
     if k == 'merge':
-        P = m['merged']
-        b = fresh.get({'kind': 'merge', 'dst': U.prov(P[1]), 'src': U.prov(P[2]), 'ow': bool(P[3])})
-        case({'merge': P})
+        b = fresh.get({'kind': 'merge', 'dst': U.prov(m['dst']), 'src': U.prov(m['src']), 'ow': bool(m['ow'])})
+        case({'merge': [m['dst'], m['src'], m['ow']]})
         ctx.count('merge_' + (o['merge_err'] or 'ok'))
         if o['merge_err'] != b['err'] or o['fp'] != b['fp']:
             ctx.violation('the result of a merge depends on the history', hist, expected=b, observed=o)
             ctx.disagree('corr:c15.merge', hist, o, m)
+        elif m['refused'] != (b['err'] is not None):
+            # the table the model was given (from this or another history of the block) says otherwise than the fresh run
+            ctx.disagree('corr:c15.merge(refused)', hist, o, {'model': m, 'fresh': b})
+        elif m['refused']:
+            # the model: a refused merge leaves the destination with the data it had (and every later operation on it is compared
+            # with fresh runs on THAT provenance)
+            d = fresh.get({'kind': 'data', 'prov': U.prov(m['merged'])})
+            ctx.count('refused_merges_compared_with_the_unmerged_library')
+            if o['fp'] != d.get('fp'):
+                ctx.violation('after a refused merge the destination does not hold the data it held before', hist,
+                              expected=d, observed=o)
+                ctx.disagree('corr:c15.merge(refused leaves data)', hist, o, m)
         return
 
 
@@ -836,11 +867,12 @@ def object_reuse_checks(ctx):
 
 
 def load_own_findings(ctx):
-    """known_findings.json is assembled by the integrator (harness.mkknown); until then findings/C15.json is read directly"""
+    """known_findings.json is assembled by the integrator (harness.mkknown) from findings/*.json; for this property's own
+    findings the source file is read directly and wins (a stale assembled list must not keep a repaired finding `known`)"""
     p = os.path.join(common.VERIF, 'findings', 'C15.json')
     if os.path.exists(p):
         for e in json.load(open(p)):
-            ctx.known.setdefault(e['id'], e)
+            ctx.known[e['id']] = e
 
 
 def run(ctx):
@@ -892,7 +924,8 @@ def run(ctx):
             seen.add(v['what'])
             shrink_violation(ctx, U, fresh, f1_fixed, v)
     if not ctx.searching and not ctx.violations and not ctx.disagreements and ctx.driver_ok:
-        floor = {'F26_seen': 1, 'evaluate_elemental': 6, 'evaluate_plain': 6, 'decompose_ok': 10, 'estimate_ok': 10}
+        floor = {'F26_seen': 1, 'evaluate_elemental': 6, 'evaluate_plain': 6, 'decompose_ok': 10, 'estimate_ok': 10,
+                 'rejected_merges_that_left_nothing': 3, 'refused_merges_compared_with_the_unmerged_library': 3}
         for k, v in floor.items():
             if ctx.stats.get(k, 0) < v:
                 raise common.MachineryError('generator reach below floor: %s = %d' % (k, ctx.stats.get(k, 0)))
@@ -964,13 +997,15 @@ def replay(ctx, rec, fresh=None, U=None, f1_fixed=None):
 
 LEVEL_TEXT = ('Lean 4 theorems, for every behaviour of the external components and every history of any length: the output of the '
               'last operation is the function `outOf` of its declared inputs (files; scheme and molecule; library data and mapping; '
-              'data, mapping, temperature, quantity); no operation but a merge into it changes a library\'s data; the elemental '
+              'data, mapping, temperature, quantity); no operation but a merge into it changes a library\'s data, and a merge that is refused '
+              'changes nothing at all (it can be deleted from any history); the elemental '
               'reference uses the last molecule decomposed with the library before the estimate was made and nothing else; the '
               'statement "for the estimate\'s molecule" is refuted on the model (F26) and proved under the guard that makes it true. '
               'The model is tied to the code by running random histories on the real objects and comparing every output with a '
               'fresh-process run of the declared inputs the model names. Right level: the quantifier is over all histories.')
 LEVEL_NOTE = ('Trusted: Lean kernel; standard axioms; the harness and its fresh-process runner; that the files and environment do '
-              'not change during a run. Modelled, not verified: which state Load, GetDescriptors, Estimate, get_*, Update read and write. '
+              'not change during a run. Modelled, not verified: which state Load, GetDescriptors, Estimate, get_*, Update read and write '
+              '(Update: refused and nothing stored, or merged — the shape the C13 model of the method is proved to have). '
               'External behaviour (YAML, RDKit, thermochemistry, merge) is a parameter of every theorem. F26 is a recorded finding '
               '(known); F1 and F12 cases are counted and not reported here.')
 TECHNIQUE = 'Lean 4 proof over a hand-written state-machine model + symbolic model execution compared with fresh-process runs of the declared inputs'
